@@ -301,6 +301,19 @@ def programs(n_yields):
              spec=lambda: _per_epoch('first', lambda: (S(lim=T['lim']), 'items', Iter().first(key=(Y, Call(lambda a, b: a > b, args=(T, S.lim))), default='none')))),
         dict(name='first-use-first-b', family='first-use-first', target=lambda: {'lim': 4, 'items': list(range(6))},
              spec=lambda: _per_epoch('first', lambda: (S(lim=T['lim']), 'items', Iter().first(key=(Y, Call(lambda a, b: a > b, args=(T, S.lim))), default='none')))),
+        # overlapping calls that go through ONE Glommer, or are given ONE scope= dict object: each call has its own bindings, its own
+        # S.globals, its own trace - the Glommer's frozen scope and the caller's dict are read, never written
+        dict(name='one-glommer-bindings-x', family='one-glommer', target=lambda: {'v': 'X-value', 'n': [1, 2]}, entry=_ROWS_GLOMMER.glom,
+             spec=lambda: chain(S(x=T['v']), A.globals.g, (T['n'], [A.globals.last]), T) + ({'x': S.x, 'g': (S.globals.g, 'v'), 'last': S.globals.last},)),
+        dict(name='one-glommer-bindings-y', family='one-glommer', target=lambda: {'v': 'Y-value', 'n': [7]}, entry=_ROWS_GLOMMER.glom,
+             spec=lambda: chain(S(x=T['v']), A.globals.g, (T['n'], [A.globals.last]), T) + ({'x': S.x, 'g': (S.globals.g, 'v'), 'last': S.globals.last},)),
+        dict(name='one-glommer-failing', family='one-glommer', target=lambda: {'v': 'Z-value'}, entry=_ROWS_GLOMMER.glom,
+             spec=lambda: chain(S(x=T['v']), A.globals.g) + (Coalesce(S.globals.nope, (S.x, T['zz'])),)),
+        dict(name='one-scope-dict-a', family='one-scope-dict', target=lambda: {'v': 'A-value'}, kw={'scope': _ONE_SCOPE_DICT},
+             spec=lambda: chain(S(x=T['v']), A.globals.g, T) + ({'x': S.x, 'unit': S.unit, 'g': (S.globals.g, 'v')},)),
+        dict(name='one-scope-dict-b', family='one-scope-dict', target=lambda: {'v': 'B-value'}, kw={'scope': _ONE_SCOPE_DICT},
+             spec=lambda: chain(S(x=T['v']), A.globals.g, T) + ({'x': S.x, 'unit': S.unit, 'g': (S.globals.g, 'v')},),
+             post=lambda target, o: ('keys-of-the-caller-dict', sorted(repr(k) for k in list(_ONE_SCOPE_DICT) if isinstance(k, str)))),
         # container literals in ARGUMENT position whose construction is interrupted by a yield point; the spec objects are
         # shared between threads (a memo keyed by id(spec) that outlives one call would hand one call another call's value)
         dict(name='shared-arg-default', target=lambda: {'v': threading.get_ident()}, spec=lambda: _shared_arg('default', n_yields)),
@@ -312,6 +325,7 @@ def programs(n_yields):
 
 _SHARED_ARG = {}
 _SHARED_FIRST = {}
+_ONE_SCOPE_DICT = {'unit': 'cm'}
 # spec objects shared by the calls of ONE schedule and built anew for every schedule (and for every run alone): their very first
 # evaluations overlap - state that a constructor prepares "for the first use" is seen by exactly one call
 _EPOCH = [0]
